@@ -556,12 +556,13 @@ class FileStoragePacker(FileStorageFormatter):
                         is_dup = (
                             rpos and self._read_data_header(rpos).tid == h.tid)
                         if not is_dup:
-                            if h.oid not in self.gc.reachable:
-                                self.blob_removed.write(
-                                    binascii.hexlify(h.oid) + b'\n')
-                            else:
-                                self.blob_removed.write(
-                                    binascii.hexlify(h.oid + h.tid) + b'\n')
+                            # Tag just this revision: the object may have
+                            # been written again after the pack time, so
+                            # its directory can hold files of revisions
+                            # that are kept.  (Directories left empty are
+                            # removed when the tags are processed.)
+                            self.blob_removed.write(
+                                binascii.hexlify(h.oid + h.tid) + b'\n')
 
                 pos += h.recordlen()
                 continue
